@@ -753,44 +753,6 @@ func c15DeclaresClasses(ds []*c15Decl) bool {
 	return false
 }
 
-// C15-nested-layer-classes: a layer that declares classes and has a layer of its own, while the board
-// that overlayClasses starts from (the root, or the scenario/step holding the chain of layers) has no
-// classes: overlayClasses returns before it visits the layers.
-func c15SigNestedLayerClasses(ds []*c15Decl) bool {
-	found := false
-	// visited: the enclosing chain was reached by overlayClasses with a classes map
-	var walk func(ds []*c15Decl, kind string, visited bool, inheritedClasses bool)
-	walk = func(ds []*c15Decl, kind string, visited bool, inheritedClasses bool) {
-		has := c15DeclaresClasses(ds) || inheritedClasses
-		// does overlayClasses descend from this board into its layers?
-		var descends bool
-		switch kind {
-		case "layers":
-			descends = visited // visited layers always end with classes
-		default: // root, scenario, step: their own call
-			descends = has
-		}
-		for _, d := range ds {
-			if d.Kind != "boards" {
-				continue
-			}
-			for _, b := range d.Boards {
-				switch d.BKind {
-				case "layers":
-					if !descends && kind == "layers" && c15DeclaresClasses(ds) {
-						found = true
-					}
-					walk(b.Body, "layers", descends, false)
-				default:
-					walk(b.Body, d.BKind, false, has)
-				}
-			}
-		}
-	}
-	walk(ds, "root", false, false)
-	return found
-}
-
 // ---------------------------------------------------------------- generator
 
 type c15Env struct {
@@ -1196,6 +1158,78 @@ func (g *c15G) body(env *c15Env, depth int, root bool) []*c15Decl {
 	return ds
 }
 
+// edgeGlobProgram: the base board declares a glob on connections; sibling scenarios (and the base itself,
+// after the scenarios) create connections over a small pool of end points, so the same connection id is
+// declared in several boards that all descend from the one glob context of the base.  Often the glob has
+// matched nothing in the base when the scenarios are declared.
+func (g *c15G) edgeGlobProgram() []*c15Decl {
+	pool := []string{"a", "b", "c"}
+	var ds []*c15Decl
+	for _, o := range pool[:g.r.Range(2, 3)] {
+		switch g.r.Intn(3) {
+		case 0:
+			ds = append(ds, g.key(o, nil, nil, false))
+		case 1:
+			ds = append(ds, g.key(o, g.lit(g.r.Pick(c15Words)), nil, false))
+		default:
+			ds = append(ds, g.key(o+".style.fill", g.lit(g.r.Pick(c15Colors)), nil, false))
+		}
+	}
+	globs := []string{"(* -> *)[*].style.stroke: " + g.r.Pick(c15Colors)}
+	if g.r.Chance(0.4) {
+		globs = append(globs, "(* -> *)[*].style.opacity: 0.4")
+	}
+	if g.r.Chance(0.3) {
+		globs = append(globs, "*.shape: "+g.r.Pick(c15Shapes))
+	}
+	for _, gl := range globs {
+		ds = append(ds, &c15Decl{Kind: "glob", Glob: gl})
+	}
+	conn := func() *c15Decl {
+		a, b := g.r.Pick(pool), g.r.Pick(pool)
+		for b == a {
+			b = g.r.Pick(pool)
+		}
+		d := &c15Decl{Kind: "edge", Src: []string{a}, Dst: []string{b}}
+		if g.r.Chance(0.3) {
+			d.Prim = g.lit(g.r.Pick(c15Words))
+		}
+		return d
+	}
+	if g.r.Chance(0.3) {
+		ds = append(ds, conn()) // the glob already matched something in the base
+	}
+	names := []string{"s1", "s2", "s3"}
+	board := func(kind string) *c15Decl {
+		d := &c15Decl{Kind: "boards", BKind: kind}
+		for _, n := range names[:g.r.Range(2, 3)] {
+			var body []*c15Decl
+			for i := g.r.Range(1, 3); i > 0; i-- {
+				body = append(body, conn())
+			}
+			if g.r.Chance(0.3) {
+				body = append(body, g.key(g.r.Pick(c15ObjNames), nil, nil, false))
+			}
+			if kind == "scenarios" && g.r.Chance(0.2) {
+				inner := &c15Decl{Kind: "boards", BKind: "scenarios"}
+				inner.Boards = append(inner.Boards, &c15Board{Name: "t1", Body: []*c15Decl{conn()}}, &c15Board{Name: "t2", Body: []*c15Decl{conn()}})
+				body = append(body, inner)
+			}
+			d.Boards = append(d.Boards, &c15Board{Name: n, Body: body})
+		}
+		return d
+	}
+	ds = append(ds, board("scenarios"))
+	if g.r.Chance(0.5) {
+		ds = append(ds, conn()) // the base declares a connection after its scenarios
+	}
+	if g.r.Chance(0.25) {
+		names = []string{"u1", "u2", "u3"}
+		ds = append(ds, board(g.r.Pick([]string{"layers", "steps"})))
+	}
+	return ds
+}
+
 // ---------------------------------------------------------------- corpus
 
 func c15Corpus(g *c15G) [][]*c15Decl {
@@ -1244,7 +1278,7 @@ func c15Corpus(g *c15G) [][]*c15Decl {
 			null("x")},
 		{k("vars", nil, []*c15Decl{k("v", l("alpha"), nil, false)}, true), k("x", sub(c15Part{Lit: "pre "}, c15Part{Sub: "v"}), nil, false),
 			bd("scenarios", b("s1", k("vars", nil, []*c15Decl{k("v", l("beta"), nil, false)}, true)))},
-		// KNOWN FINDING: nested layer does not get the classes of its parent layer when the root has none
+		// nested layer gets the classes of its parent layer although the root has none (repaired by d2 2ba3646d1)
 		{k("x", nil, nil, false),
 			bd("layers", b("s1", k("classes", nil, []*c15Decl{k("k1", nil, []*c15Decl{k("style.fill", l("red"), nil, false)}, true)}, true),
 				k("q.class", l("k1"), nil, false),
@@ -1386,9 +1420,6 @@ func c15Case(ds []*c15Decl, class string, ext bool, r *Rng) Case {
 	if c15SigSubstAlias(ds) {
 		cs.KF = append(cs.KF, "C15-subst-alias")
 	}
-	if c15SigNestedLayerClasses(ds) {
-		cs.KF = append(cs.KF, "C15-nested-layer-classes")
-	}
 	if c15SigLayerScenarioClasses(ds) {
 		cs.KF = append(cs.KF, "C15-layer-scenario-classes")
 	}
@@ -1415,17 +1446,31 @@ func c15Gen(r *Rng, tier string, n int) []Case {
 			bd("steps", "t1", g0.key("p", nil, nil, false))},
 		{{Kind: "glob", Glob: "***.shape: circle"}, g0.key("d.shape", g0.lit("diamond"), nil, false),
 			bd("scenarios", "s1", g0.key("x", nil, nil, false))},
+		// a connection glob of the base that has matched nothing yet; two sibling scenarios and the base
+		// afterwards declare the same connection: each gets the glob
+		{{Kind: "glob", Glob: "(* -> *)[*].style.stroke: red"}, g0.key("a", nil, nil, false), g0.key("b", nil, nil, false), g0.key("c", nil, nil, false),
+			{Kind: "boards", BKind: "scenarios", Boards: []*c15Board{
+				{Name: "s1", Body: []*c15Decl{{Kind: "edge", Src: []string{"a"}, Dst: []string{"c"}}}},
+				{Name: "s2", Body: []*c15Decl{{Kind: "edge", Src: []string{"a"}, Dst: []string{"c"}}}}}},
+			{Kind: "edge", Src: []string{"a"}, Dst: []string{"c"}}},
 	} {
 		out = append(out, c15Case(p, "corpus-globs", true, r.Fork()))
 	}
 	for i := 0; i < n; i++ {
 		rr := r.Fork()
-		ext := i%5 == 4
+		ext := i%5 == 4 || i%5 == 2
 		g := &c15G{r: rr, ext: ext}
-		ds := g.body(&c15Env{}, 0, true)
+		var ds []*c15Decl
 		class := "gen-core"
-		if ext {
-			class = "gen-globs"
+		switch {
+		case i%5 == 2:
+			ds = g.edgeGlobProgram()
+			class = "gen-edge-globs"
+		default:
+			ds = g.body(&c15Env{}, 0, true)
+			if ext {
+				class = "gen-globs"
+			}
 		}
 		out = append(out, c15Case(ds, class, ext, rr.Fork()))
 	}
